@@ -49,6 +49,16 @@ Iter(re, w, cur, done, min, max) ==
   ELSE LET nxt == UNION { Ends(re, w, p) : p \in cur }
        IN  (IF done >= min THEN cur ELSE {}) \cup Iter(re, w, nxt, done + 1, min, max)
 
+\* Counted repetition of a single leaf, in closed form (no recursion: a{66000} on an input of
+\* 66 000 characters is evaluated by one bounded quantifier instead of a recursion 66 000 deep,
+\* C17).  run = number of consecutive atoms of the leaf from position i.  RepLeafLemma states
+\* that this is Iter; bin/check has TLC evaluate it on all small cases (leg L-RepLeaf of C17).
+RepLeaf(set, w, i, min, max) ==
+  LET bad == { k \in i..Len(w) : ~InLeaf(set, w[k]) }
+      run == IF bad = {} THEN Len(w) - i + 1 ELSE (CHOOSE k \in bad : \A k2 \in bad : k <= k2) - i
+      hi  == IF max = -1 \/ max > run THEN run ELSE max
+  IN  { i + c : c \in min..hi }
+
 Ends(re, w, i) ==
   CASE re.op = "eps"  -> {i}
     [] re.op = "cls"  -> IF i <= Len(w) /\ InLeaf(re.set, w[i]) THEN {i + 1} ELSE {}
@@ -57,9 +67,15 @@ Ends(re, w, i) ==
     [] re.op = "star" -> Closure(re.l, w, {i}, {i})
     [] re.op = "plus" -> LET f == Ends(re.l, w, i) IN Closure(re.l, w, f, f)
     [] re.op = "opt"  -> {i} \cup Ends(re.l, w, i)
-    [] re.op = "rep"  -> Iter(re.l, w, {i}, 0, re.min, re.max)
+    [] re.op = "rep"  -> IF re.l.op = "cls" THEN RepLeaf(re.l.set, w, i, re.min, re.max)
+                         ELSE Iter(re.l, w, {i}, 0, re.min, re.max)
 
 Matches(re, w, i, j) == j \in Ends(re, w, i)
+
+\* the closed form agrees with the iteration (evaluated over small words, bounds and leaves)
+RepLeafLemma(Words, Sets, N) ==
+  \A w \in Words : \A set \in Sets : \A i \in 1..(Len(w) + 1) : \A min \in 0..N : \A max \in {-1} \cup (min..N) :
+    RepLeaf(set, w, i, min, max) = Iter([op |-> "cls", set |-> set], w, {i}, 0, min, max)
 
 RECURSIVE Nullable(_)
 Nullable(re) ==
